@@ -51,7 +51,7 @@ def generate(chk, maxlen, scripts=None):
     return r.emits()
 
 
-def execute(script, outlen_mode, as_path, tmp, tag, check_first=0):
+def execute(script, outlen_mode, as_path, tmp, tag, check_first=0, stale=False):
     """returns dict of observations"""
     import scared
     n, L = len(script), 5
@@ -70,7 +70,21 @@ def execute(script, outlen_mode, as_path, tmp, tag, check_first=0):
         o = script[k]
         events.append({'ans': o, 'processed': int(holder['s'].processed_counter), 'synchronized': int(holder['s'].synchronized_counter)})
         if o == 'R':
-            raise scared.ResynchroError('rejected') if k % 2 else ValueError('boom')
+            # every way a user function can refuse a trace: with or without a message, library or builtin exception types
+            how = (k + len(script)) % 7
+            if how == 0:
+                raise ValueError('boom')
+            if how == 1:
+                raise scared.ResynchroError('rejected')
+            if how == 2:
+                raise scared.ResynchroError
+            if how == 3:
+                assert o != 'R'
+            if how == 4:
+                raise KeyError()
+            if how == 5:
+                return [1, 2][5]
+            raise _Silent()
         if o == 'N':
             return None
         base = np.asarray(trace_object.samples[:], dtype='int32') * 2 + 1
@@ -78,6 +92,11 @@ def execute(script, outlen_mode, as_path, tmp, tag, check_first=0):
             return base[:outlen]
         return np.concatenate([base, np.array([k, -k], dtype='int32')])
     fn = os.path.join(tmp, f'out_{tag}.ets')
+    if stale:
+        # an earlier campaign already wrote this output file (other traces, other length); the new run either refuses it or produces ITS output
+        old = scared.traces.read_ths_from_ram(samples=np.full((n + 2, 3), 9, dtype='int16'), id=np.arange(900, 902 + n, dtype='int64'), plaintext=np.zeros((n + 2, 4), dtype='uint8'))
+        o_ths = scared.Synchronizer(old, fn, lambda trace_object: np.asarray(trace_object.samples[:])).run()
+        o_ths.close()
     s = scared.Synchronizer(ths, Path(fn) if as_path else fn, f)
     holder['s'] = s
     obs = {'error': None}
@@ -133,12 +152,19 @@ def execute(script, outlen_mode, as_path, tmp, tag, check_first=0):
     return obs
 
 
+class _Silent(Exception):
+    def __init__(self):
+        super().__init__()
+
+
 RECORDED = []
 
 
-def judge(e, obs):
+def judge(e, obs, stale=False):
     """compare observations with the specification's final state; returns failing clause or None"""
     n = len(e['script'])
+    if stale and obs.get('error') and 'len' not in obs:
+        return None            # run() raised on the existing output file (at the first trace it had to write): the run is refused as a whole, nothing is claimed
     if obs['processed'] != e['processed'] or obs['synchronized'] != e['synchronized']:
         return f'processed/synchronized counters equal the number of inputs / accepted traces (got {obs["processed"]}/{obs["synchronized"]}, specification {e["processed"]}/{e["synchronized"]})'
     if obs['calls'] != list(range(n)):
@@ -202,6 +228,15 @@ def run(chk):
                     chk.violation(f'{bad.split(" (")[0]}:{pat}' + (':after check()' if e.get('checked') else ''), {'property': 'C20', 'script': script, 'check_first': 2 if e.get('checked') else 0, 'returned_length': mode, 'output_as_path': as_path, 'specification': e,
                                                                  'observed': {k: v for k, v in obs.items() if not k.startswith('_')}, 'clause': bad},
                                   f'script {"".join(script)} ({mode}, {"Path" if as_path else "str"}): {bad}')
+            if j % 9 == 4:
+                obs = execute(script, 'same', False, tmp, f'{j}_stale', stale=True)
+                bad = judge(e, obs, stale=True)
+                chk.count((tuple(script), 'stale'), nontrivial=True)
+                chk.traces_validated += 1
+                if bad:
+                    chk.violation(f'{bad.split(" (")[0]}:existing output file', {'property': 'C20', 'script': script, 'stale_output': True, 'returned_length': 'same', 'output_as_path': False, 'specification': e,
+                                                                                 'observed': {k: v for k, v in obs.items() if not k.startswith('_')}, 'clause': bad},
+                                  f'script {"".join(script)} on an output file left by an earlier campaign: {bad}')
             for fn in os.listdir(tmp):
                 os.unlink(os.path.join(tmp, fn))
             if j in (50, 500):
@@ -237,8 +272,8 @@ def replay(chk, path):
     rp = json.load(open(path))
     tmp = tempfile.mkdtemp(prefix='verif_c20_')
     try:
-        obs = execute(rp['script'], rp['returned_length'], rp['output_as_path'], tmp, 'replay', check_first=rp.get('check_first', 0))
-        bad = judge(rp['specification'], obs)
+        obs = execute(rp['script'], rp['returned_length'], rp['output_as_path'], tmp, 'replay', check_first=rp.get('check_first', 0), stale=rp.get('stale_output', False))
+        bad = judge(rp['specification'], obs, stale=rp.get('stale_output', False))
     finally:
         shutil.rmtree(tmp, ignore_errors=True)
     print('disagreement:', bad)
